@@ -111,7 +111,8 @@ def _run_spec(draw, observed=False):
     else:
         n = draw(st.integers(6, 60))
     return {"seed": draw(st.integers(0, 2**31 - 1)), "n": n, "chunk": chunk,
-            "prefix": draw(st.sampled_from([None, None, "a", "b"])), "fmt": draw(st.sampled_from(["tsv", "tsv", "parquet"])),
+            "prefix": draw(st.sampled_from([None, None, "a", "b", "s[1]"])), "fmt": draw(st.sampled_from(["tsv", "tsv", "parquet"])),
+            "two_datasets": draw(st.sampled_from([False, False, True])),
             "dedup": draw(st.booleans()), "rollup": draw(st.sampled_from([True, True, False])),
             "proteins": draw(st.sampled_from([False, False, True]))}
 
@@ -176,9 +177,15 @@ def _assign(spec, ds, scores, dest):
 
     config_inject.install_pep_stub()
     prot = _proteins_for(ds) if (spec.get("proteins") and spec["rollup"]) else None
+    dss, scs = [ds], [scores.copy()]
+    if spec.get("two_datasets") and spec["prefix"] is None and prot is None:
+        # an aggregated analysis: two collections written, one after the other, to the same un-prefixed result files
+        ds2, sc2 = _dataset({**spec, "seed": spec["seed"] + 4242, "n": max(6, spec["n"] // 2)}, Path(ds.filename).parent, "agg_")
+        dss.append(ds2)
+        scs.append(sc2.copy())
     with config_inject.chunk_sizes(confidence=spec["chunk"]):
-        mokapot.assign_confidence([ds], max_workers=1, scores=[scores.copy()], descs=[True], eval_fdr=0.1, dest_dir=Path(dest),
-                                  prefixes=[spec["prefix"]], decoys=True, deduplication=spec["dedup"], do_rollup=spec["rollup"],
+        mokapot.assign_confidence(dss, max_workers=1, scores=scs, descs=[True] * len(dss), eval_fdr=0.1, dest_dir=Path(dest),
+                                  prefixes=[spec["prefix"]] * len(dss), decoys=True, deduplication=spec["dedup"], do_rollup=spec["rollup"],
                                   proteins=prot, peps_algorithm="verif_stub")
 
 
@@ -285,6 +292,10 @@ def _check_api(case):
         classes.append("observed-rows-multiple-of-chunk")
     if len(case["earlier"]) > 1:
         classes.append("several-earlier-runs")
+    if obs.get("two_datasets") and obs["prefix"] is None:
+        classes.append("aggregated-two-datasets")
+    if obs["prefix"] and "[" in obs["prefix"]:
+        classes.append("prefix-with-glob-characters")
     if case["ks"] == "all":
         classes.append("all-crash-points")
     return {"nontrivial": visible, "classes": classes, "counters": counters}
